@@ -169,6 +169,55 @@ func c08ReadSegs(segs [][]byte) string {
 	}
 }
 
+// c08DetectTCP: the peer's side of the property on the repository's own connection type: the stream
+// (announcement + frames, as the real writer produced it) arrives over loopback TCP in the given
+// segments; transport.NewTCP + mode.Detect + ReadMsg must deliver it whatever the segmentation.
+func c08DetectTCP(segs [][]byte) string {
+	done := make(chan struct{})
+	go func() {
+		defer close(done)
+		conn, err := c08Listener.Accept()
+		if err != nil {
+			return
+		}
+		tc := conn.(*net.TCPConn)
+		_ = tc.SetNoDelay(true)
+		for i, s := range segs {
+			if len(s) > 0 {
+				_, _ = tc.Write(s)
+			}
+			if i+1 < len(segs) && len(segs) <= 64 {
+				time.Sleep(300 * time.Microsecond)
+			}
+		}
+		_ = tc.Close()
+	}()
+	ctx, cancel := context.WithCancel(context.Background())
+	defer cancel()
+	conn, err := transport.NewTCP(transport.TCPConnConfig{Ctx: ctx, Host: c08Listener.Addr().String(), Timeout: 10 * time.Second})
+	if err != nil {
+		return "dial-error:" + err.Error()
+	}
+	defer conn.Close()
+	res := ""
+	m, err := mode.Detect(conn)
+	if err != nil {
+		res = "mode=err:" + classifyStreamErr(err)
+	} else {
+		var out []string
+		for res == "" {
+			msg, err := m.ReadMsg()
+			if err != nil {
+				res = fmt.Sprintf("mode=%s msgs=%s end=%s", modeName(m), showList(out), classifyStreamErr(err))
+			} else {
+				out = append(out, showBytes(msg))
+			}
+		}
+	}
+	<-done
+	return res
+}
+
 type stubInformator struct{}
 
 func (stubInformator) GetSessionID() int64  { return 1 }
@@ -278,6 +327,12 @@ func c08Exec(op []string) string {
 		return c08ReadSegs(splitAt(b, parseSplits(op[2], len(b))))
 	case "c08.read":
 		return c08ReadSegs(parseBytesList(op[1]))
+	case "c08.det":
+		b, e := c08Write(op[1], parseBytesList(op[3]))
+		if e != "-" {
+			return "werr=" + e
+		}
+		return c08DetectTCP(splitAt(b, parseSplits(op[2], len(b))))
 	case "c08.tcp":
 		return c08Tcp(op[1], op[2], op[3:])
 	}
@@ -308,7 +363,7 @@ func c08Judge(op []string, out string) string {
 		if out != exp {
 			return "written bytes differ from the format: want " + clip(exp)
 		}
-	case "c08.rt":
+	case "c08.rt", "c08.det":
 		md, msgs := op[1], parseBytesList(op[3])
 		var shown []string
 		for _, m := range msgs {
@@ -422,6 +477,25 @@ func c08Gen(g *G) {
 			compositions(total, func(cuts []int) {
 				g.Emit(fmt.Sprintf("c08.rt %s %s %s", md, cutsStr(cuts), msgs), "rt-exhaustive", "mode="+md)
 			})
+		}
+	}
+	// (b') the same through the repository's own TCP connection type (transport.NewTCP) and mode.Detect: every
+	// composition of the first bytes (announcement and first header), the rest in one segment; one byte at a time
+	headBytes := 6
+	if g.Thorough() {
+		headBytes = 9
+	}
+	for _, md := range []string{"a", "i"} {
+		for _, set := range [][]int{{4, 0, 8}, {508, 512}} {
+			var toks []string
+			for _, l := range set {
+				toks = append(toks, tok(l))
+			}
+			msgs := showList(toks)
+			compositions(headBytes, func(cuts []int) {
+				g.Emit(fmt.Sprintf("c08.det %s %s %s", md, cutsStr(append(append([]int{}, cuts...), headBytes)), msgs), "det-tcp-exhaustive-head", "mode="+md)
+			})
+			g.Emit(fmt.Sprintf("c08.det %s each %s", md, showList([]string{tok(4), tok(0), tok(8)})), "det-tcp-bytewise", "mode="+md)
 		}
 	}
 	// long streams: random splits and one byte at a time
